@@ -54,6 +54,7 @@ struct SimThread {
     unsigned long allocs, allocs_excl;
     uintptr_t stack_lo, stack_hi, saved_sp;
     unsigned run_streak;
+    unsigned long blocks;          // number of times this thread had to park in a blocking primitive
 };
 
 enum Status { ST_OK = 0, ST_VIOLATION = 3, ST_LIMIT = 4, ST_SKIP = 5 };
